@@ -266,9 +266,16 @@ func Generate(property, tier string, seed uint64, idx uint64) *Trace {
 			}
 			k := tr.Nodes[n].Kind
 			if k == "multi" {
-				tr.Ops = append(tr.Ops, Op{K: "write", N: n})
+				// its substores sit on MemDB, whose iterators read values lazily: no Write while one of them is open
+				busy := false
+				for _, o := range open {
+					busy = busy || o.node == n
+				}
+				if !busy {
+					tr.Ops = append(tr.Ops, Op{K: "write", N: n})
+				}
 			}
-			if k == "cache" && mayChangeView(tr.Nodes[n].Parent, n) {
+			if k == "cache" && mayChangeView(landing(tr.Nodes[n].Parent), n) {
 				tr.Ops = append(tr.Ops, Op{K: "write", N: n})
 				touched[n] = false
 				continue
